@@ -342,6 +342,8 @@ func encField(f, lit string) []byte {
 		return b
 	case "s":
 		return append(append([]byte{}, unhex(lit)...), 0)
+	case "r": // a trailing field written as it is (no terminator), like the name in the library's own Account example
+		return append([]byte{}, unhex(lit)...)
 	}
 	panic("bad field " + f)
 }
@@ -384,6 +386,8 @@ func decField(f string, b []byte) string {
 		return f64Lit(art.FloatBinaryKey[float64]{}.Restore(b))
 	case "s":
 		return hexLit(b[:len(b)-1])
+	case "r":
+		return hexLit(b)
 	}
 	panic("bad field " + f)
 }
